@@ -52,7 +52,10 @@ pub fn judge(ctx: &mut Ctx, v: &Version, source: &str, loose: bool) {
     ctx.begin(|| format!("C12 roundtrip of {:?}", source));
     ctx.eval(1);
     let w = json!({"source": source});
-    let printed = match guarded(|| v.to_string()) {
+    // (printing is preceded by prints of another value into writers that fail: a Display impl
+    //  must not carry anything over from one call to the next)
+    let other = { let mut o = v.clone(); o.major = o.major.wrapping_add(1) % 1000; o.build.clear(); o };
+    let printed = match guarded(|| crate::observe::print_after_failed_prints(&other, v)) {
         Ok(p) => p,
         Err(p) => {
             ctx.violation(&format!("panic/{}", p.site), w, p.message);
@@ -126,13 +129,23 @@ pub fn judge(ctx: &mut Ctx, v: &Version, source: &str, loose: bool) {
                 ctx.violation(&format!("json/not-printed-string/{}", cls), w, format!("serialized {} but printed form is {}", j, expect));
                 return;
             }
-            match guarded(|| serde_json::from_str::<Version>(&j)) {
-                Ok(Ok(d)) => {
-                    if let Some(f) = fields_equal(v, &d) {
-                        ctx.violation(&format!("json/fields-differ/{}/{}", f, cls), w, format!("JSON {} deserialized with a different {}", j, f));
+            match guarded(|| crate::json_front_ends!(Version, &j)) {
+                Ok(all) => {
+                    for (front, res) in all {
+                        match res {
+                            Ok(d) => {
+                                if let Some(f) = fields_equal(v, &d) {
+                                    ctx.violation(&format!("json/fields-differ/{}/{}", f, cls), w, format!("JSON {} deserialized through {} with a different {}", j, front, f));
+                                    return;
+                                }
+                            }
+                            Err(e) => {
+                                ctx.violation(&format!("json/deserialize-fails/{}", cls), w, format!("JSON {} does not deserialize through serde_json::{}: {}", j, front, e));
+                                return;
+                            }
+                        }
                     }
                 }
-                Ok(Err(e)) => ctx.violation(&format!("json/deserialize-fails/{}", cls), w, format!("JSON {} does not deserialize: {}", j, e)),
                 Err(p) => ctx.violation(&format!("panic/{}", p.site), w, p.message),
             }
         }
